@@ -1,9 +1,214 @@
-import Rs1090.Proofs.Decode.Wp
+/-
+BDS 0,9 airborne velocity — lemmas on `Model/Decode/Bds09.lean`:
+panic-freedom (C01), serialisability (C07) and ranges (C08), for every reader state
+(all subtypes, including the reserved ones 0, 5, 6, 7).
+-/
+import Rs1090.Proofs.Decode.FieldsLemmas
 import Rs1090.Model.Decode.Bds09
+import Rs1090.Props.C13
 namespace Rs1090.Model.Bds09
 open Rs1090 Rs1090.Model
 
-/-- STUB proof for the STUB reader (replaced together with the model) -/
-theorem read_noPanic : NoPanic read := by unfold read; exact noPanic_fail _
+/-! ### per-field lemmas over the full code spaces (kernel enumeration) -/
+
+/-- a velocity component is an integer in [-1022, 1022] -/
+def velOk (r : Int) : Bool := decide (-1022 ≤ r) && decide (r ≤ 1022)
+
+/-- all 2 × 2^10 (sign, code) pairs: `(val as i16 - 1) * sign` never overflows -/
+theorem velComponent_enum : ∀ x, x < 2 ^ 11 →
+    Outcome.check velOk (velComponent (x / 1024) (x % 1024)) = true :=
+  Rs1090.Props.C13.enum 11 (by decide +kernel)
+
+theorem velComponent_spec (sign val : Nat) (hs : sign < 2 ^ 1) (hv : val < 2 ^ 10) :
+    Outcome.check velOk (velComponent sign val) = true := by
+  have h := velComponent_enum (sign * 1024 + val) (by omega)
+  have e1 : (sign * 1024 + val) / 1024 = sign := by omega
+  have e2 : (sign * 1024 + val) % 1024 = val := by omega
+  rwa [e1, e2] at h
+
+/-- vertical rate: absent, or a multiple of 64 ft/min within ±32640 -/
+def vrateOk : Option Int → Bool
+  | none => true
+  | some r => Constraint.holds (.multiple 64 (-32640) 32640) (jint r)
+
+/-- all 2 × 2^9 (sign, code) pairs: `sign * (v as i16 - 1) * 64` never overflows an `i16` -/
+theorem vrate_enum : ∀ x, x < 2 ^ 10 → Outcome.check vrateOk (vrate (x / 512) (x % 512)) = true :=
+  Rs1090.Props.C13.enum 10 (by decide +kernel)
+
+theorem vrate_spec (sign v : Nat) (hs : sign < 2 ^ 1) (hv : v < 2 ^ 9) :
+    Outcome.check vrateOk (vrate sign v) = true := by
+  have h := vrate_enum (sign * 512 + v) (by omega)
+  have e1 : (sign * 512 + v) / 512 = sign := by omega
+  have e2 : (sign * 512 + v) % 512 = v := by omega
+  rwa [e1, e2] at h
+
+/-- GNSS-baro difference: absent, or a multiple of 25 ft within ±3150 -/
+def geoOk : Option Int → Bool
+  | none => true
+  | some r => decide (r % 25 = 0) && decide (-3150 ≤ r) && decide (r ≤ 3150)
+
+/-- all 2 × 2^7 (sign, code) pairs -/
+theorem geoBaro_enum : ∀ x, x < 2 ^ 8 → Outcome.check geoOk (geoBaro (x / 128) (x % 128)) = true :=
+  Rs1090.Props.C13.enum 8 (by decide +kernel)
+
+theorem geoBaro_spec (sign v : Nat) (hs : sign < 2 ^ 1) (hv : v < 2 ^ 7) :
+    Outcome.check geoOk (geoBaro sign v) = true := by
+  have h := geoBaro_enum (sign * 128 + v) (by omega)
+  have e1 : (sign * 128 + v) / 128 = sign := by omega
+  have e2 : (sign * 128 + v) % 128 = v := by omega
+  rwa [e1, e2] at h
+
+/-- subsonic airspeed: absent or ≤ 1022 kt -/
+def speedOk (hi : Nat) : Option Nat → Bool
+  | none => true
+  | some a => decide (a ≤ hi)
+
+theorem airspeedSub_spec : ∀ v, v < 2 ^ 10 → Outcome.check (speedOk 1022) (airspeedSub v) = true :=
+  Rs1090.Props.C13.enum 10 (by decide +kernel)
+
+/-- supersonic airspeed `4 * (v - 1)` (u16): absent or ≤ 4088 kt -/
+theorem airspeedSuper_spec : ∀ v, v < 2 ^ 10 → Outcome.check (speedOk 4088) (airspeedSuper v) = true :=
+  Rs1090.Props.C13.enum 10 (by decide +kernel)
+
+/-- `val * 360 / 1024` lies in [0, 360) for every 10-bit code -/
+theorem heading_range (h : Nat) (hh : h < 2 ^ 10) :
+    Constraint.holds (.range 0 360 false) (jrat (headingNum h) headingDen) = true := by
+  simp [Constraint.holds, jrat, ratIn, headingNum, headingDen]
+  omega
+
+/-! ### keys -/
+
+theorem sf_nacv : specFor (key! "NACv").id = none := rfl
+theorem sf_gs : specFor (key! "groundspeed").id = some .nonneg := rfl
+theorem sf_track : specFor (key! "track").id = some (.range 0 360 false) := rfl
+theorem sf_heading : specFor (key! "heading").id = some (.range 0 360 false) := rfl
+theorem sf_ias : specFor (key! "IAS").id = some .nonneg := rfl
+theorem sf_tas : specFor (key! "TAS").id = some .nonneg := rfl
+theorem sf_vsrc : specFor (key! "vrate_src").id = none := rfl
+theorem sf_vrate : specFor (key! "vertical_rate").id = some (.multiple 64 (-32640) 32640) := rfl
+theorem sf_geo : specFor (key! "geo_minus_baro").id = none := rfl
+
+/-! ### the flattened velocity block -/
+
+/-- what `readVelocity` may return: one of four key shapes, all values well formed and in range -/
+def VelGood (vel : Fields) : Prop :=
+  (vel.ids = [] ∨ vel.ids = [(key! "groundspeed").id, (key! "track").id] ∨
+   vel.ids = [(key! "heading").id, (key! "IAS").id] ∨ vel.ids = [(key! "heading").id, (key! "TAS").id]) ∧
+  vel.all entryWf = true ∧ vel.all entryInRange = true
+
+theorem velGood_nil : VelGood [] := ⟨Or.inl rfl, rfl, rfl⟩
+
+theorem holds_nonneg_jnat (n : Nat) : Constraint.holds .nonneg (jnat n) = true := by
+  simp [Constraint.holds, jnat]
+
+theorem airspeedFields_good (status : Bool) (hdg asType : Nat) (speed : Option Nat) (hh : hdg < 2 ^ 10) :
+    VelGood (airspeedFields (if status then some (jrat (headingNum hdg) headingDen) else none) asType speed) := by
+  unfold airspeedFields
+  have hw1 : entryWf (skipNone (key! "heading")
+      (if status then some (jrat (headingNum hdg) headingDen) else none)) = true := by
+    cases status <;> simp [headingDen]
+  have hr1 : entryInRange (skipNone (key! "heading")
+      (if status then some (jrat (headingNum hdg) headingDen) else none)) = true := by
+    cases status
+    · rfl
+    · exact entryInRange_spec _ _ _ sf_heading (heading_range hdg hh)
+  by_cases ht : (asType == 0) = true
+  · simp only [ht, if_true]
+    refine ⟨Or.inr (Or.inr (Or.inl rfl)), ?_, ?_⟩
+    · simp only [List.all_cons, List.all_nil, Bool.and_true, Bool.and_eq_true]
+      exact ⟨hw1, entryWf_skipNone_map _ _ _ (by simp)⟩
+    · simp only [List.all_cons, List.all_nil, Bool.and_true, Bool.and_eq_true]
+      refine ⟨hr1, entryInRange_spec_opt _ _ _ sf_ias ?_⟩
+      intro v hv; cases speed <;> simp at hv; subst hv; exact holds_nonneg_jnat _
+  · simp only [ht]
+    refine ⟨Or.inr (Or.inr (Or.inr rfl)), ?_, ?_⟩
+    · simp only [List.all_cons, List.all_nil, Bool.and_true, Bool.and_eq_true]
+      exact ⟨hw1, entryWf_skipNone_map _ _ _ (by simp)⟩
+    · simp only [List.all_cons, List.all_nil, Bool.and_true, Bool.and_eq_true]
+      refine ⟨hr1, entryInRange_spec_opt _ _ _ sf_tas ?_⟩
+      intro v hv; cases speed <;> simp at hv; subst hv; exact holds_nonneg_jnat _
+
+theorem readGroundSpeed_spec (s : Rd) : wp readGroundSpeed (fun vel _ => VelGood vel) s := by
+  unfold readGroundSpeed
+  wp_run
+  apply wp_lift_of (Outcome.of_check (velComponent_spec _ _ (by assumption) (by assumption))).1; intro ew _
+  wp_run
+  apply wp_lift_of (Outcome.of_check (velComponent_spec _ _ (by assumption) (by assumption))).1; intro ns _
+  wp_run
+  refine ⟨Or.inr (Or.inl rfl), ?_, ?_⟩
+  · simp [groundspeedJ, trackJ]
+  · simp only [List.all_cons, List.all_nil, Bool.and_true, Bool.and_eq_true]
+    exact ⟨entryInRange_spec _ _ _ sf_gs rfl, entryInRange_spec _ _ _ sf_track rfl⟩
+
+theorem readAirspeedSub_spec (s : Rd) : wp readAirspeedSub (fun vel _ => VelGood vel) s := by
+  unfold readAirspeedSub
+  wp_run
+  apply wp_lift_of (Outcome.of_check (airspeedSub_spec _ (by assumption))).1; intro speed _
+  wp_run
+  exact airspeedFields_good _ _ _ _ (by assumption)
+
+theorem readAirspeedSuper_spec (s : Rd) : wp readAirspeedSuper (fun vel _ => VelGood vel) s := by
+  unfold readAirspeedSuper
+  wp_run
+  apply wp_lift_of (Outcome.of_check (airspeedSuper_spec _ (by assumption))).1; intro speed _
+  wp_run
+  exact airspeedFields_good _ _ _ _ (by assumption)
+
+theorem readVelocity_spec (subtype : Nat) (s : Rd) : wp (readVelocity subtype) (fun vel _ => VelGood vel) s := by
+  unfold readVelocity
+  wp_run
+  wp_if h
+  · wp_run; exact velGood_nil
+  wp_if h
+  · exact readGroundSpeed_spec _
+  wp_if h
+  · exact readAirspeedSub_spec _
+  wp_if h
+  · exact readAirspeedSuper_spec _
+  · wp_run; exact velGood_nil
+
+/-! ### the register -/
+
+/-- everything at once: no panic; the result serialises and is in range -/
+theorem read_spec (s : Rd) : wp read (fun r _ => SerGood outerKeys r ∧ RangeGood r) s := by
+  unfold read
+  wp_run
+  refine wp_mono (readVelocity_spec _ _) ?_
+  intro vel s1 hvel
+  wp_run
+  have hvr := Outcome.of_check (vrate_spec _ _ (by assumption) (by assumption))
+  apply wp_lift_of hvr.1; intro vr evr
+  have hvr' := hvr.2 vr evr
+  wp_run
+  have hgb := Outcome.of_check (geoBaro_spec _ _ (by assumption) (by assumption))
+  apply wp_lift_of hgb.1; intro gb _
+  wp_run
+  obtain ⟨hids, hwf, hrg⟩ := hvel
+  refine ⟨?_, ?_⟩
+  · refine serGood_of_fields _ _ ?_ ?_ ?_
+    · rcases hids with h | h | h | h <;>
+        (simp only [Fields.ids_append, Fields.ids_cons, Fields.ids_nil, fld_fst, skipNone_fst, fldOpt_fst, h]; decide)
+    · rcases hids with h | h | h | h <;>
+        (simp only [Fields.ids_append, Fields.ids_cons, Fields.ids_nil, fld_fst, skipNone_fst, fldOpt_fst, h]; decide)
+    · simp only [List.all_append, List.all_cons, List.all_nil, Bool.and_true, Bool.and_eq_true]
+      exact ⟨⟨by simp, hwf⟩, by simp, entryWf_skipNone_map _ _ _ (by simp), entryWf_fldOpt_map _ _ _ (by simp)⟩
+  · apply rangeGood_of_fields
+    simp only [List.all_append, List.all_cons, List.all_nil, Bool.and_true, Bool.and_eq_true]
+    refine ⟨⟨entryInRange_free _ _ sf_nacv (by simp), hrg⟩, entryInRange_free _ _ sf_vsrc (by simp), ?_, ?_⟩
+    · refine entryInRange_spec_opt _ _ _ sf_vrate ?_
+      intro v hv; cases vr <;> simp at hv; subst hv; exact hvr'
+    · refine entryInRange_free _ _ sf_geo ?_
+      cases gb <;> simp
+
+theorem read_noPanic : NoPanic read := fun s => wp_mono (read_spec s) (fun _ _ _ => trivial)
+
+/-- C07: every subtype (reserved ones included, after fix d0d10b1) serialises; keys distinct -/
+theorem read_serGood : ∀ s, wp read (fun r _ => SerGood outerKeys r) s :=
+  fun s => wp_mono (read_spec s) (fun _ _ h => h.1)
+
+/-- C08: `groundspeed` ≥ 0, `track`/`heading` ∈ [0, 360), `IAS`/`TAS` ≥ 0,
+    `vertical_rate` ∈ 64·ℤ ∩ [−32640, 32640] -/
+theorem read_rangeGood : ∀ s, wp read (fun r _ => RangeGood r) s :=
+  fun s => wp_mono (read_spec s) (fun _ _ h => h.2)
 
 end Rs1090.Model.Bds09
